@@ -47,14 +47,20 @@ func (c *Channel) read() {
 	})
 
 	for {
+		verifYield("read:top")
+
 		select {
 		case <-c.done:
 			return
 		default:
 		}
 
+		verifYield("read:before-transport-read")
+
 		b, err := c.t.Read()
 		if err != nil {
+			verifYield("read:after-read-error")
+
 			select {
 			case <-c.done:
 				// this prevents us from ever writing to, what would in this case be, a closed
@@ -76,6 +82,8 @@ func (c *Channel) read() {
 			c.l.Criticalf(
 				"encountered error reading from transport during channel read loop. error: %s", err,
 			)
+
+			verifYield("read:before-error-handoff")
 
 			select {
 			case c.Errs <- err:
@@ -104,6 +112,8 @@ func (c *Channel) read() {
 			b = util.StripANSI(b)
 		}
 
+		verifYield("read:before-enqueue")
+
 		c.Q.Enqueue(b)
 
 		if c.ChannelLog != nil {
@@ -121,6 +131,8 @@ func (c *Channel) read() {
 // errors on the Errs channel (these would come from the underlying transport), the error is
 // returned with nil for the byte slice.
 func (c *Channel) Read() ([]byte, error) {
+	verifYield("Read:start")
+
 	select {
 	case err := <-c.Errs:
 		return nil, err
